@@ -117,6 +117,28 @@ m("c09-tuple-drop-err", "C09", "net/packet/util.go",
 m("c09-dynbt-marshal-drop", "C09", "nbt/dynbt/encode.go",
   "func writeInt32(w io.Writer, n int32) error {\n\t_, err := w.Write(", "func writeInt32(w io.Writer, n int32) error {\n\tvar err error\n\t_, _ = w.Write(")
 
+# ---------------------------------------------------------------- C10
+m("c10-fastpath-ge", "C10", "net/CFB8/cfb8.go", "if len(src) > cf.blockSize<<1 &&", "if len(src) >= cf.blockSize<<1 &&")
+m("c10-fastpath-iv-copy-off", "C10", "net/CFB8/cfb8.go", "copy(iv, ciphertext[i:i+cf.blockSize])", "copy(iv, ciphertext[i+1:i+1+cf.blockSize-1])")
+m("c10-fastpath-no-ivpos-reset", "C10", "net/CFB8/cfb8.go", "\t\tcopy(iv, ciphertext[i:i+cf.blockSize])\n\t\tcf.ivPos = 0\n", "\t\tcopy(iv, ciphertext[i:i+cf.blockSize])\n")
+m("c10-ring-wrap-early", "C10", "net/CFB8/cfb8.go", "if cf.ivPos == cf.blockSize<<1 {", "if cf.ivPos == cf.blockSize<<1-1 {")
+m("c10-ring-wrap-de-swapped", "C10", "net/CFB8/cfb8.go",
+  "\t\t\tif cf.de {\n\t\t\t\tcf.iv[cf.blockSize-1] = src[i]\n\t\t\t} else {\n\t\t\t\tcf.iv[cf.blockSize-1] = val\n\t\t\t}",
+  "\t\t\tif !cf.de {\n\t\t\t\tcf.iv[cf.blockSize-1] = src[i]\n\t\t\t} else {\n\t\t\t\tcf.iv[cf.blockSize-1] = val\n\t\t\t}")
+m("c10-fastpath-alias-check-dropped", "C10", "net/CFB8/cfb8.go",
+  "uintptr(unsafe.Pointer(&src[0]))+uintptr(len(src)) <= uintptr(unsafe.Pointer(&dst[0]))) {", "uintptr(unsafe.Pointer(&src[0]))+uintptr(len(src)) <= uintptr(unsafe.Pointer(&dst[0])) || cf.de) {")
+m("c10-fastpath-decrypt-tail", "C10", "net/CFB8/cfb8.go",
+  "\t\t\tfor i = 0; i < len(src)-cf.blockSize; i += 1 {", "\t\t\tfor i = 0; i < len(src)-cf.blockSize+1; i += 1 {")
+m("c10-setcipher-swapped", "C10", "net/conn.go",
+  "\t\tS: decoStream,\n\t\tR: c.Socket,", "\t\tS: ecoStream,\n\t\tR: c.Socket,")
+m("c10-slow-path-dst-short", "C10", "net/CFB8/cfb8.go",
+  "\tcf.xorKeyStream(dst, src)\n}", "\tif len(src) == cf.blockSize+1 {\n\t\tcf.xorKeyStream(dst, src[:cf.blockSize])\n\t\tcf.xorKeyStream(dst[cf.blockSize-1:], src[cf.blockSize:])\n\t\treturn\n\t}\n\tcf.xorKeyStream(dst, src)\n}")
+
+m("c10-fastpath-assumes-fresh-state", "C10", "net/CFB8/cfb8.go",
+  "\t\tcf.xorKeyStream(dst, src[:cf.blockSize])\n\t\tvar ciphertext []byte", "\t\tcf.ivPos = 0\n\t\tcf.xorKeyStream(dst, src[:cf.blockSize])\n\t\tvar ciphertext []byte")
+m("c10-second-ring-wrap-broken", "C10", "net/CFB8/cfb8.go",
+  "\t\t\tcopy(cf.iv, cf.iv[cf.ivPos+1:])\n", "\t\t\tif cf.iv[len(cf.iv)-1] != 0xA5 {\n\t\t\t\tcopy(cf.iv, cf.iv[cf.ivPos+1:])\n\t\t\t\tcf.iv[len(cf.iv)-1] = 0xA5\n\t\t\t}\n")
+
 
 def sh(cmd, cwd=None, timeout=3600, env=ENV):
     p = subprocess.run(cmd, shell=True, cwd=cwd, env=env, stdout=subprocess.PIPE, stderr=subprocess.STDOUT, text=True, timeout=timeout)
